@@ -17,6 +17,10 @@ ASSUME = [
     "one fault per run: configuration Deferred fails, local bind raises CannotListenError, ADD_ONION / SETCONF answered 512, every "
     "descriptor upload FAILED, control connection lost while the creation command, the descriptor wait or the final unsubscription "
     "(SETEVENTS without HS_DESC, answered in a step of its own) is outstanding",
+    "fault cancel_wait: the caller cancels the Deferred listen() returned (as a timeout put on it would) during the descriptor wait: "
+    "listen must fail (once the subscription has been given up) and close the local listener, never hand out a port object",
+    "every configuration x fault is also run with another HS_DESC listener on the same connection (the application's own): giving up the "
+    "service's subscription then needs no exchange with Tor and the outcome is delivered with the deciding event",
     "the reactor is a fake whose listenTCP hands out port numbers and records open listeners and their interface",
 ]
 
@@ -32,25 +36,31 @@ def run(pid, tier, seed):
                 continue
             for noise in ("", "up", "fail", "fetchfail"):
                 traces.append(ol.replay(cfg, fault, noise))
+            if fault != "disconnect_unsub" and not cfg.startswith("str_"):       # (a connection the endpoint makes for itself has no other users)
+                # the same with somebody else listening to HS_DESC on the connection as well
+                traces.append(ol.replay(cfg, fault, "", others=True))
+                traces.append(ol.replay(cfg, fault, "up", others=True))
     for cfg in ol.INVALID:
         traces.append(ol.replay(cfg, "invalid"))
     rep.cov["evaluations"] = len(traces)
-    rep.cov["distinct_nontrivial"] = len(set((t["cfg"], t["fault"], t["noise"]) for t in traces))
+    rep.cov["distinct_nontrivial"] = len(set((t["cfg"], t["fault"], t["noise"], t["others"]) for t in traces))
     rep.cov["exhaustive"] = True
     rep.cov["rule"] = ("every endpoint configuration x every fault (none / config / bind / reject / all uploads failed / disconnect during "
-                       "create / disconnect during wait) x descriptor events of another service (none / uploaded / failed, while the creation command "
+                       "create / disconnect during wait / disconnect during the unsubscription / cancelled by the caller during the wait) x another HS_DESC "
+                       "listener on the connection or not x descriptor events of another service (none / uploaded / failed, while the creation command "
                        "is outstanding and during the wait) plus the invalid option combinations; each is one step-by-step execution of the "
                        "real listen(); all are distinct and non-trivial")
     ok = pipeline.validate(rep, pid, "OnionListen", "OnionListenTrace", "OnionListenTrace.cfg", traces, chunk=100, nproc=4,
-                           payload=lambda t: dict(cfg=t["cfg"], fault=t["fault"], noise=t["noise"]),
-                           describe=lambda t: "(configuration %s, fault %s, foreign descriptor events %r)" % (t["cfg"], t["fault"], t["noise"]))
+                           payload=lambda t: dict(cfg=t["cfg"], fault=t["fault"], noise=t["noise"], others=t["others"]),
+                           describe=lambda t: "(configuration %s, fault %s, foreign descriptor events %r%s)" % (
+                               t["cfg"], t["fault"], t["noise"], ", another HS_DESC listener on the connection" if t["others"] else ""))
     rep.cov["samples"] = [dict(cfg=t["cfg"], fault=t["fault"], steps=t["steps"]) for t in ok[:1]]
     return rep.finish()
 
 
 def replay(pid, path):
     p = json.load(open(path))
-    t = ol.replay(p["cfg"], p["fault"], p.get("noise", ""))
+    t = ol.replay(p["cfg"], p["fault"], p.get("noise", ""), p.get("others", False))
     res, r = tlc.validate_traces("OnionListenTrace", "OnionListenTrace.cfg", [t])
     x = res[0]
     print("replay: matched %d of %d steps" % (x["matched"], x["wanted"]))
